@@ -1206,3 +1206,76 @@ def syn_constructed_once(cx, iid):
                                  construct="SYN accepted without the exact-length test", why="only a full-size connection request may be answered")
         if n == 0:
             inst.violation("frame::serial", "HandshakeSynFrame", "no construction of HandshakeSynFrame found in the reader (anchor)")
+
+
+def resend_schedule(cx, iid):
+    """T7 + T9: a resendable fragment comes due again a bounded time after each transmission: every entry pushed to the
+    resend queue is due at now_ms + X where X is built from the RTT estimate and the entry's send count only, and the
+    send count — the exponent of the back-off — only ever holds values capped by a small constant (bit-width analysis
+    of resend_queue::Entry.send_count: at most 3 bits, i.e. a back-off factor of at most 2^7).  An uncapped exponent
+    doubles the interval for ever (a fragment lost k times waits rtt * 2^k), overflows the shift after 64 losses and
+    leaves a Reliable packet undelivered for longer than any bound."""
+    from domain import BitWidth
+    R = cx.R
+    with cx.instance(iid, "T7 SHAPE + T9 (value domain)", "resend entries are due at now + f(rtt, send count) and the send count is capped by a small constant", floor=2) as inst:
+        b = R.body("HalfConnection::emit_data_frames")
+        n = 0
+        for loc, t in b.calls("BinaryHeap::push"):
+            e = b.call_expr(t)
+            if "resend_queue" not in show(e[2][0]):
+                continue
+            ent = e[2][1]
+            if not (ent[0] == "call" and ent[1].endswith("resend_queue::Entry::new") and len(ent[2]) == 3):
+                inst.violation(b.path, "resend entry", "resend_queue.push of something that is not Entry::new(fragment, time, count): `%s`" % show(ent)[:120], at=b.span_at(loc))
+                continue
+            n += 1
+            tm = show(ent[2][1])
+            inst.site(b, loc, "due at " + tm[:90])
+            m = re.fullmatch(r"add\((.*)\)", tm)
+            parts = _split_top(m.group(1)) if m else []
+            if "arg2" not in parts:
+                inst.violation(b.path, "resend time", "a resend entry's due time is not now_ms + interval: `%s`" % tm[:140], at=b.span_at(loc))
+                continue
+            rest = [p for p in parts if p != "arg2"]
+            free = set()
+            for p in rest:
+                for v in re.findall(r"(arg\d+(?:\.[a-z_0-9]+)*|var\d+)", p):
+                    free.add(v)
+                if re.search(r"\.send_count", p):
+                    free.discard("send_count")
+            bad = [v for v in free if v != "arg3" and not v.startswith("arg1.resend_queue")]
+            if bad or not rest:
+                inst.violation(b.path, "resend interval", "the resend interval `%s` depends on something other than the RTT estimate and the entry's send count (%s)" % (",".join(rest)[:120], ",".join(sorted(bad)) or "nothing"), at=b.span_at(loc))
+        if n < 2:
+            inst.violation(b.path, "resend pushes", "expected the first-send push and the re-push of the resend loop (anchor)")
+        bw = BitWidth(R)
+        owner = None
+        for a in R.data.get("adts", []):
+            if a.get("path", "").endswith("resend_queue::Entry"):
+                owner = a["path"]
+        w = None
+        for loc_, srcs in bw.sources.items():
+            if loc_[0] == "field" and loc_[2] == "send_count" and str(loc_[1]).endswith("resend_queue::Entry"):
+                w = bw.loc_width(loc_, 8)
+        inst.site(b, None, "bit-width of resend_queue::Entry.send_count = %s" % w)
+        if w is None:
+            inst.violation("half_connection::resend_queue::Entry", "send_count", "field resend_queue::Entry.send_count not found in the value-domain analysis (anchor)")
+        elif w > 3:
+            inst.violation("half_connection::resend_queue::Entry", "send_count uncapped", "the resend back-off exponent can hold %d-bit values: it is not capped by a small constant, so the resend interval of a repeatedly lost fragment grows without bound" % w)
+
+
+def _split_top(s):
+    out, depth, cur = [], 0, ""
+    for ch in s:
+        if ch in "([{":
+            depth += 1
+        elif ch in ")]}":
+            depth -= 1
+        if ch == "," and depth == 0:
+            out.append(cur)
+            cur = ""
+        else:
+            cur += ch
+    if cur:
+        out.append(cur)
+    return out
